@@ -1,0 +1,12 @@
+//go:build !verif
+// +build !verif
+
+// Package verifhook provides failpoints and scheduler gates for the model-based checks in /verif.
+// Without the build tag "verif" every function is empty and is inlined away.
+package verifhook
+
+func Durable(site string, key []byte) {}
+
+func DurableErr(site string, key []byte) error { return nil }
+
+func Gate(site string) {}
